@@ -311,6 +311,15 @@ func main() {
 				in{cat(refsmf.Header(1, 2, 96), trk(padded), trk(ev2)), fmt.Sprintf("padded-first-of-two-%d", len(pad))},
 				in{cat(refsmf.Header(1, 3, 96), trk(ev2), trk(padded), trk(ev)), fmt.Sprintf("padded-middle-of-three-%d", len(pad))})
 		}
+		// a header that declares no track (the reader takes chunks until the data
+		// ends) followed by a track and the first 1..7 bytes of another chunk header
+		for _, typ := range []string{"MTrk", "XFIH"} {
+			hd8 := append([]byte(typ), 0, 0, 0, 4)
+			for n := 1; n <= 7; n++ {
+				inputs = append(inputs, in{cat(refsmf.Header(1, 0, 96), trk(ev), hd8[:n]), fmt.Sprintf("no-track-declared+%d-bytes-of-a-%s-header", n, typ)})
+				inputs = append(inputs, in{cat(refsmf.Header(1, 2, 96), trk(ev), hd8[:n]), fmt.Sprintf("two-declared-one-present+%d-bytes-of-a-%s-header", n, typ)})
+			}
+		}
 		plain := cat(refsmf.Header(0, 1, 96), trk(ev))
 		riff := []byte("RIFF\x00\x00\x00\x00RMIDdata\x00\x00\x00\x00")
 		riff[4] = byte(len(plain) + 12)
